@@ -79,8 +79,9 @@ pub struct NetworkBottleneck {
 impl NetworkBottleneck {
     pub fn new(network: Network, window: Duration, queue_pps: Option<usize>) -> Self {
         let pps = network.pps.unwrap_or(queue_pps.unwrap_or(usize::MAX));
-        // average delay, based on window and limit
-        let added_delay = window / pps as u32;
+        // average delay, based on window and limit (clamped so that the
+        // conversion to u32 can neither truncate to zero nor divide by zero)
+        let added_delay = window / pps.clamp(1, u32::MAX as usize) as u32;
 
         Self {
             network,
